@@ -6,6 +6,7 @@ from rules.storefacts import field_of
 from rules.c13 import chase_mentions
 from rules.c17 import chase_calls, natural_loop
 import callgraph
+from rules import builderfacts
 
 LEVEL_TEXT = (
     "Only the configuration-plumbing clauses have a static form; equality of behaviour across runtimes is NOT decided. "
@@ -62,19 +63,18 @@ def r1(ctx):
     rep.check(len(wt) == 1 and chase_param(mb, wt[0][1].args[1], 1), "multi_thread_runtime:worker_threads", "Builder::worker_threads(<- parameter)", "create_multi_thread_runtime does not pass its argument to worker_threads", mb.loc())
     bf = builderfacts.builder_facts(ctx, "create_current_thread_server")
     rep.check(bool(bf["range_ends"]) and all(x == F(P("config"), "threads") for x in bf["range_ends"]) and bf["thread_spawns"] > 0, "current_thread:threads", "one listener thread per args.threads", "the number of listener threads is not the CLI thread count", bf["body"].loc())
-    # timeout plumbing: server config -> client config -> Duration::from_secs
-    gb = f.one(SERVER + "::get_client_config")
-    for p in Interp(f).run(gb, [P("self")]):
-        rep.check(field_of(p.ret, "rx_timeout_secs") == F(P("self"), "config", "timeout_secs"), "client-config:rx-timeout", "rx_timeout_secs <- config.timeout_secs", "the client's read timeout is %s" % short(field_of(p.ret, "rx_timeout_secs"), 60), gb.loc())
-    hb = f.one(CLIENT + "::handle::{closure#0}")
-    fs = find_call(hb, "std::time::Duration::from_secs")
-    to = find_call(hb, "tokio::time::timeout")
-    okto = len(fs) == 1 and len(to) == 1 and chase_mentions(hb, fs[0][1].args[0], ("rx_timeout_secs",)) and chase_calls(hb, to[0][1].args[0], lambda n: n == "std::time::Duration::from_secs") and chase_calls(hb, to[0][1].args[1], lambda n: n == CONN + "::read_frame")
-    rep.check(okto, "handle:timeout(read_frame)", "timeout(from_secs(rx_timeout_secs), read_frame())", "the read loop does not bound read_frame by the configured timeout", hb.loc())
-    # listen backlog reaches listen()
-    lb = f.one(SERVER + "::get_tcp_listener")
-    ls = find_call(lb, "Socket::listen")
-    rep.check(len(ls) == 1 and chase_mentions(lb, ls[0][1].args[1], ("listen_backlog",)), "listen(backlog)", "listen(config.listen_backlog)", "listen() is not called with the configured backlog", lb.loc())
+    # timeout and backlog plumbing, composed through MemcacheTcpServer::new -> run -> Client::new -> Client::handle: the idle
+    # timeout around every read is from_secs(server config timeout), listen() gets the server config's backlog
+    from rules import conntask
+
+    pl = conntask.plumbing(ctx)
+    hb = f.one(CLIENT + "::handle")
+    durs = pl["timeout_durations"]
+    okto = bool(durs) and all(F(P("config"), "timeout_secs") in atoms(d) and any(isinstance(x, tuple) and x[0] == "call" and x[1].endswith("Duration::from_secs") for x in atoms(d)) for d in durs)
+    rep.check(okto, "handle:timeout(read_frame)", "every read is bounded by from_secs(server config timeout)", "the idle timeout of a connection is %s, not Duration::from_secs of the server configuration's timeout" % (sorted(set(short(d, 60) for d in durs)) or "absent"), hb.loc())
+    rep.check(pl["client"] is not None, "client-config:rx-timeout", "the server configuration reaches the Client built in the accept loop", "cannot follow the configuration from MemcacheTcpServer::new to the Client built in the accept loop", hb.loc())
+    ls = pl["listen_args"]
+    rep.check(bool(ls) and all(tform(a) == F(P("config"), "listen_backlog") for a in ls), "listen(backlog)", "listen(server config backlog)", "listen() is called with %s, not the configured backlog" % sorted(set(short(a, 40) for a in ls)), safe_loc(f, SERVER + "::run"))
     return rep
 
 
@@ -127,8 +127,8 @@ def r2(ctx):
         ok = len(calls) == 1 and chase_calls(sb, calls[0][1].args[1], lambda n: n.endswith("MemcacheStoreBuilder::from_config"))
         rep.check(ok, "store->%s" % fn, "%s(config, <- from_config(..))" % fn, "create_memcrs_server does not hand the store it built to %s" % fn, sb.loc())
         b = f.one(RB + fn)
-        tn = find_call(b, "MemcacheTcpServer::new")
-        okn = len(tn) == 1 and derives_from_param(b, tn[0][1].args[1], 2)
+        bf = builderfacts.builder_facts(ctx, fn)
+        okn = bool(bf["news"]) and all(P("store") in atoms(st_) or tform(st_) == P("store") for _cfg, st_, _e in bf["news"])
         rep.check(okn, "%s:server-gets-store" % fn, "MemcacheTcpServer::new(_, <- store parameter)", "%s builds its server on something else than the store it was given" % fn, b.loc())
     return rep
 
